@@ -238,6 +238,8 @@ def _vec_case(rng, spec, tables):
             inp[p] = str(rng.choice(strings))
         elif t == "v":
             inp[p] = _gen_vec(rng, n)
+        elif t == "b":
+            inp[p] = [bool(x) for x in (rng.random(n) < rng.choice([0.5, 0.8, 1.0, 0.0]))]
         elif t == "ov":
             u = rng.random()
             if u < 0.4:
@@ -262,6 +264,8 @@ def _vec_line(spec, tables, inp):
             toks.append(v if v != "" else "\"\"")
         elif t == "v":
             toks += [str(len(v))] + ["none" if x != x else hexf(x) for x in v]
+        elif t == "b":
+            toks += [str(len(v))] + ["1" if x else "0" for x in v]
         elif t == "ov":
             toks += ["None"] if v is None else [str(len(v))] + ["none" if x != x else hexf(x) for x in v]
     return f"pyvec.{spec['name']} " + " ".join(toks)
@@ -269,15 +273,23 @@ def _vec_line(spec, tables, inp):
 
 def _vec_python(module, spec, inp):
     kwargs = {}
+    obj = None
+    if spec.get("cls"):          # a method: a bare instance of the real class carrying exactly the attributes the translation reads
+        cls = getattr(module, spec["cls"])
+        obj = object.__new__(cls)
     for p, t in spec["params"]:
         v = inp[p]
-        kwargs[p] = (None if v is None else np.array(v, dtype=float)) if t in ("v", "ov") else v
+        val = (None if v is None else np.array(v, dtype=float)) if t in ("v", "ov") else (np.array(v, dtype=bool) if t == "b" else v)
+        if p.startswith("self."):
+            setattr(obj, p[5:], val)
+        else:
+            kwargs[p] = val
     try:
         with np.errstate(all="ignore"):
             import warnings
             with warnings.catch_warnings():
                 warnings.simplefilter("ignore")
-                r = getattr(module, spec["func"])(**kwargs)
+                r = getattr(obj, spec["func"])(**kwargs) if obj is not None else getattr(module, spec["func"])(**kwargs)
     except Exception as e:
         return ("raise", type(e).__name__)
     r = float(r)
